@@ -15,6 +15,7 @@ import (
 	"verif/internal/harness"
 	m "verif/internal/model"
 	"verif/internal/obs"
+	"verif/internal/ref"
 )
 
 // C08 — tokens and blocks are immutable values; sibling derivations are independent.
@@ -51,6 +52,14 @@ type c08Tok struct {
 }
 
 type c08Counts struct{ Facts, Rules, Checks int }
+
+// nfacts: the facts an authorizer sees at authority level before any rule runs (the authority block's)
+func nfacts(model []m.Block) int {
+	if len(model) == 0 {
+		return 0
+	}
+	return len(model[0].Facts)
+}
 
 type c08Builder struct {
 	bb      biscuit.BlockBuilder
@@ -136,6 +145,13 @@ func c08Observe(tk *c08Tok, pub ed25519.PublicKey, full bool) (c08Snap, error) {
 			}
 			s.panel = append(s.panel, o.String())
 		}
+		// one more authorizer for the same token and key, this time with a fact limit of 1: however
+		// many authorizers were made before, the options of this one are the ones that count
+		la, err := tk.tok.AuthorizerFor(biscuit.WithSingularRootPublicKey(pub), biscuit.WithWorldOptions(datalog.WithMaxFacts(1), datalog.WithMaxDuration(bridge.LongDuration)))
+		if err != nil {
+			return s, fmt.Errorf("verify: %w", err)
+		}
+		s.panel = append(s.panel, "with a fact limit of 1: "+bridge.Authorize(la).Class)
 	}
 	return s, nil
 }
@@ -213,7 +229,10 @@ func checkC08(c C08Case, rec *obs.Recorder) *obs.Violation {
 		if nchecks > 0 {
 			want0 = fmt.Sprintf("checks(%d)", nchecks)
 		}
-		if len(s.panel) == 2 && (s.panel[0] != want0 || s.panel[1] != "allow") {
+		if len(s.panel) == 3 && nfacts(model) >= 1 && s.panel[2] != "with a fact limit of 1: "+ref.Limit {
+			return obs.ViolK("panel", "history [%s]: new token (%s) holds %d facts; an authorizer created with a fact limit of 1 answers %q", strings.Join(hist, "; "), how, nfacts(model), s.panel[2])
+		}
+		if len(s.panel) == 3 && (s.panel[0] != want0 || s.panel[1] != "allow") {
 			return obs.ViolK("panel", "history [%s]: new token (%s) with %d checks: an authorizer that allows everything gives %s (expected %s); one that also supplies the facts the checks ask for gives %s (expected allow)", strings.Join(hist, "; "), how, nchecks, s.panel[0], want0, s.panel[1])
 		}
 		if s.str != s.reloadedStr {
@@ -564,10 +583,15 @@ func checkC08(c C08Case, rec *obs.Recorder) *obs.Violation {
 			// returned earlier must not change when it decodes another one
 			var nt *biscuit.Biscuit
 			var err error
+			buf := append([]byte{}, toks[i].snap.ser...)
 			if step%2 == 0 {
-				nt, err = sharedUnmarshaler.Unmarshal(append([]byte{}, toks[i].snap.ser...))
+				nt, err = sharedUnmarshaler.Unmarshal(buf)
 			} else {
-				nt, err = biscuit.Unmarshal(toks[i].snap.ser)
+				nt, err = biscuit.Unmarshal(buf)
+			}
+			// the receive buffer is the caller's and is used for the next message
+			for k := range buf {
+				buf[k] = 0x33
 			}
 			if err != nil {
 				return obs.Violf("history [%s]: Unmarshal: %v", strings.Join(hist, "; "), err)
@@ -664,7 +688,7 @@ func drawC08(t *rapid.T) C08Case {
 func TestC08(t *testing.T) {
 	rec := obs.New("C08")
 	defer rec.Flush(true)
-	rec.SetExtra("rule", "rapid operation histories (4-28 steps) over a growing family of tokens under one root key: build, createBlock(token), add fact / rule / check / fact-plus-rule that concatenates strings when it fires / check that matches its own string against its own pattern to a builder (every action uses symbols no other action uses), buildBlock (builders stay usable: more adds and further Builds follow), rootAdd (adding to the root Builder after it has built tokens) and rebuild (Build on it again), append(block to the token whose CreateBlock made it; the same block may be appended twice), seal, reload from bytes (every other time through one long-lived Unmarshaler value), GetBlockID (fresh fact; known predicate name or default symbol with a fresh string), authorize with fresh content, print, and the composites grow (create+add+build+append on the deepest token) and fork (the same twice on one parent). Parents are drawn with replacement, so several builders, blocks and tokens derived from one parent are the norm. Model: for every token the blocks its own callers supplied, plus a snapshot at birth. Invariant after every step for every live token: String, Code, Serialize, RevocationIds unchanged; every third step also String of the token reloaded from its bytes and the outcomes of two panel authorizers (allow-all; allow-all plus the facts the token's own checks ask for). At birth: independent decoding of Serialize equals the model, String equals the reloaded twin's, and the two panel authorizers answer what the content implies (checks(n) for n checks without their facts, allow with them); a token or block from a second Build may hold everything added so far or what was added since the previous Build (both readings are accepted), nothing else. The known finding blockbuilder-reuse (KNOWN_FINDINGS.txt) is stepped around and counted (known_blockbuilder_reuse_stepped_around): blocks already built are still checked. Non-trivial = a history in which some parent has >= 2 derivations and is observed afterwards; distinct by history.")
+	rec.SetExtra("rule", "rapid operation histories (4-28 steps) over a growing family of tokens under one root key: build, createBlock(token), add fact / rule / check / fact-plus-rule that concatenates strings when it fires / check that matches its own string against its own pattern to a builder (every action uses symbols no other action uses), buildBlock (builders stay usable: more adds and further Builds follow), rootAdd (adding to the root Builder after it has built tokens) and rebuild (Build on it again), append(block to the token whose CreateBlock made it; the same block may be appended twice), seal, reload from bytes (every other time through one long-lived Unmarshaler value), GetBlockID (fresh fact; known predicate name or default symbol with a fresh string), authorize with fresh content, print, and the composites grow (create+add+build+append on the deepest token) and fork (the same twice on one parent). Parents are drawn with replacement, so several builders, blocks and tokens derived from one parent are the norm. Model: for every token the blocks its own callers supplied, plus a snapshot at birth. Invariant after every step for every live token: String, Code, Serialize, RevocationIds unchanged; every third step also String of the token reloaded from its bytes and the outcomes of two panel authorizers (allow-all; allow-all plus the facts the token's own checks ask for). At birth: independent decoding of Serialize equals the model, String equals the reloaded twin's, the two panel authorizers answer what the content implies (checks(n) for n checks without their facts, allow with them), and a further authorizer created with a fact limit of 1 runs into that limit; a token or block from a second Build may hold everything added so far or what was added since the previous Build (both readings are accepted), nothing else. The known finding blockbuilder-reuse (KNOWN_FINDINGS.txt) is stepped around and counted (known_blockbuilder_reuse_stepped_around): blocks already built are still checked. Non-trivial = a history in which some parent has >= 2 derivations and is observed afterwards; distinct by history.")
 	rec.SetExtra("assumptions", []string{"a block is appended only to the token whose CreateBlock made it; Build is called once per builder"})
 	harness.RunWith(t, harness.Spec[C08Case]{ID: "C08", Draw: drawC08, Check: checkC08}, rec)
 }
